@@ -144,16 +144,18 @@ Section RoundTrip.
   Definition lz_sizes_ok (d : Z) (members : list (list Z)) : Prop :=
     Forall (fun c => zlen c < 2 ^ 64 /\ zlen (penc d c) + 26 < 2 ^ 64) members.
 
-  (* C02 (LZIP): for every requested dictionary size (the writer clamps it into [4 KiB, 512 MiB]),
-     every member size and every partition, the file the writer returns is decoded by the reader to
-     exactly the bytes written, the whole file is consumed. *)
-  Theorem C02_lzip_thm : forall o0 parts f,
+  (* what the writer returns: members with one header byte that announces at least the (clamped)
+     dictionary, covering the input *)
+  Lemma lz_encode_shape : forall o0 parts f,
     bytes_ok (concat parts) = true ->
     (forall members, lz_members_of (lo_member_size (lzw_new o0)) parts = Ok members ->
                      lz_sizes_ok (lo_dict (lzw_new o0)) members) ->
     match lo_member_size o0 with Some m => 1 <= m | None => True end ->
     lz_encode o0 parts = Ok f ->
-    lz_decode pdec lz_fixed f = Ok (concat parts, []).
+    exists byte c cs, 0 <= byte < 256 /\
+      f = lm_file (map (fun x => mkLzm byte (lo_dict (lzw_new o0)) x) (c :: cs)) /\
+      Forall lm_ok (map (fun x => mkLzm byte (lo_dict (lzw_new o0)) x) (c :: cs)) /\
+      concat (c :: cs) = concat parts.
   Proof.
     intros o0 parts f Hb Hsz Hms E. unfold lz_encode in E. cbv zeta in E.
     destruct (lz_members_of (lo_member_size (lzw_new o0)) parts) as [members| | |] eqn:Em; try discriminate.
@@ -165,13 +167,11 @@ Section RoundTrip.
     destruct (lzip_dict_ok _ Hd) as (byte & dd & Eb & Hbr & Edd & Hle & _).
     rewrite Eb in E. cbn [obind] in E. rewrite Em in E. cbn [obind] in E.
     apply lz_members_bytes_file in E.
-    (* the members cover the input *)
     assert (Hcat : concat members = concat parts /\ members <> []).
     { unfold o, lzw_new in Em; cbn [lo_member_size] in Em. destruct (lo_member_size o0) as [m|].
       - destruct (lz_members_some (Z.max m (lzip_clamp_dict (lo_dict o0))) parts ltac:(lia)) as (mb & E1 & C1 & _ & _ & Hne).
         rewrite E1 in Em. inversion Em; subst mb. split; [exact C1|]. destruct Hne as [->|F]; [discriminate|].
         destruct members; [|discriminate]. cbn in C1.
-        (* no member at all cannot happen: lz_members_of always returns at least one *)
         exfalso. clear - E1. unfold lz_members_of in E1.
         destruct (lz_write_calls _ lzsplit_init parts); try discriminate. cbn [obind] in E1. inversion E1 as [E2].
         rewrite frev_rev in E2. apply (f_equal (@length (list Z))) in E2. rewrite rev_length in E2. cbn in E2. lia.
@@ -185,10 +185,25 @@ Section RoundTrip.
       clear - Hsz Hbm Edd Hle. induction members as [|c cs IH]; [constructor|].
       inversion Hsz; subst. inversion Hbm; subst. cbn [map]. constructor; [|apply IH; assumption].
       unfold lm_ok; cbn [lm_byte lm_dict lm_content]. split; [exists dd; auto|]. tauto. }
-    subst f. destruct members as [|c cs]; [contradiction|]. cbn [map] in *.
-    rewrite lzip_multi_thm by exact Hok.
-    change (mkLzm byte (lo_dict o) c :: map (fun c0 => mkLzm byte (lo_dict o) c0) cs)
-      with (map (fun c0 => mkLzm byte (lo_dict o) c0) (c :: cs)).
+    destruct members as [|c cs]; [contradiction|]. exists byte, c, cs. auto.
+  Qed.
+
+  (* C02 (LZIP): for every requested dictionary size (the writer clamps it into [4 KiB, 512 MiB]),
+     every member size and every partition, the file the writer returns is decoded by the reader to
+     exactly the bytes written, the whole file is consumed. *)
+  Theorem C02_lzip_thm : forall o0 parts f,
+    bytes_ok (concat parts) = true ->
+    (forall members, lz_members_of (lo_member_size (lzw_new o0)) parts = Ok members ->
+                     lz_sizes_ok (lo_dict (lzw_new o0)) members) ->
+    match lo_member_size o0 with Some m => 1 <= m | None => True end ->
+    lz_encode o0 parts = Ok f ->
+    lz_decode pdec lz_fixed f = Ok (concat parts, []).
+  Proof.
+    intros o0 parts f Hb Hsz Hms E.
+    destruct (lz_encode_shape o0 parts f Hb Hsz Hms E) as (byte & c & cs & _ & Ef & Hok & Hcat).
+    subst f. cbn [map] in *. rewrite lzip_multi_thm by exact Hok.
+    change (mkLzm byte (lo_dict (lzw_new o0)) c :: map (fun c0 => mkLzm byte (lo_dict (lzw_new o0)) c0) cs)
+      with (map (fun c0 => mkLzm byte (lo_dict (lzw_new o0)) c0) (c :: cs)).
     rewrite concat_map_content, Hcat. reflexivity.
   Qed.
 End RoundTrip.
